@@ -525,7 +525,11 @@ class ScopeHarness:
 
     def describe(self, ex, outcome, detail):
         if outcome == "ok":
-            return ("ok", detail, ex.obligations)
+            import zlib
+            text = None
+            if zlib.crc32(repr((list(ex.decisions), tname(self.seq), self.fam.seed)).encode()) % 400 == 0:
+                text = self.render(ex.model() or {})       # a seed-chosen sample of passing paths for the engine-vs-native comparison
+            return ("ok", detail, ex.obligations, text)
         model = ex.model() or {}
         text = self.render(model) if hasattr(self, "P") else ""
         stack = detail.get("stack") or []
@@ -600,6 +604,8 @@ def run(ctx):
         for r in recs:
             if r[0] == "ok":
                 counts[r[1]] += 1; res.obligations += r[2]
+                if len(r) > 3 and r[3] and len(res.extra.setdefault("_ok_samples", [])) < 400:
+                    res.extra["_ok_samples"].append(r[3])
             else:
                 d = fails.setdefault(r[2], {"count": 0, "ex": []})
                 d["count"] += 1
@@ -608,6 +614,8 @@ def run(ctx):
     st, errs = explore.explore_many(famfactory(ctx.known, ctx.seed, pool), tasks, workers=ctx.workers, max_paths=50000, on_result=on_result, log=ctx.log)
     res.merge_stats(st)
     ctx.log(f"{st.get('paths', 0)} paths: {dict(counts)} panic={st.get('panic', 0)} violation={st.get('violation', 0)} unsupported={st.get('unsupported', 0)} wall={st.get('wall', 0):.1f}s")
+    from . import semh
+    semh.validate_samples(ctx, res)
     known_by_id = {k["id"]: k for k in ctx.known}
     seen = collections.Counter()
     for site, info in fails.items():
